@@ -30,6 +30,28 @@ theorem escape_safe (s : Str) :
     ∀ c ∈ escape isEscText s, c ≠ '"' ∧ c ≠ '<' ∧ isCtl c = false :=
   escape_text_safe s
 
+/-- Element text, tails and comment tails are written with `P_ESCAPE_CONTENT`; that, too, is
+invertible on every string … -/
+theorem content_roundtrip (s : Str) : unescape (escapeContent s) = some s :=
+  by rw [escapeContent_eq]; exact unescGo_escapeC false s (by simp) 0
+
+theorem content_roundtrip_xml (s : Str) (h : s.all xmlChar = true) :
+    unescapeXml (escapeContent s) = some s :=
+  by rw [escapeContent_eq]; exact unescGo_escapeC true s (fun _ => h) 0
+
+/-- … and written text contains no `<`, no control character and never the sequence `]]>`, which
+XML forbids in character data (before the repair of `_serialize_text`'s default pattern a text such
+as `x[y[0]]>1` produced a file that could not be loaded again). -/
+theorem content_safe (s : Str) :
+    (∀ c ∈ escapeContent s, c ≠ '<' ∧ isCtl c = false) ∧ hasCdataEnd (escapeContent s) = false :=
+  by
+  rw [escapeContent_eq]
+  exact ⟨fun c hc => (escapeC_safe s 0 c hc).2, by simpa using hasCdataEnd_escapeC s 0 (by omega)⟩
+
+/-- Attribute values keep `]]>` as it is (it is legal there and Capella writes it so); only text
+is affected by the look-behind. -/
+theorem attr_keeps_cdata_end : escape isEscText "a]]>b".toList = "a]]>b".toList := by decide
+
 /-! ## Non-vacuity -/
 
 example : escape isEscText "a\"b&c<d\t\n\x7f>é".toList = "a&quot;b&amp;c&lt;d&#x9;&#xA;&#x7F;>é".toList := by
@@ -39,5 +61,9 @@ example : unescape "a&quot;b&amp;c&lt;d&#x9;&#xA;&#x7F;>é".toList = some "a\"b&
 -- the strict decoder really is stricter: U+0001 is no XML `Char`
 example : unescapeXml (escape isEscText [Char.ofNat 1]) = none := by decide
 example : unescape (escape isEscText [Char.ofNat 1]) = some [Char.ofNat 1] := by decide
+
+example : escapeContent "x[y[0]]>1 >= ]>".toList = "x[y[0]]&gt;1 >= ]>".toList := by decide
+example : hasCdataEnd "x[y[0]]>1".toList = true := by decide
+example : escapeContent "]]]>>".toList = "]]]&gt;>".toList := by decide
 
 end Capella.Props.C01
